@@ -383,3 +383,20 @@ pub fn ctx_strategy() -> BoxedStrategy<Hex> {
     ]
     .boxed()
 }
+
+/// Configurations whose element counts cross 2^16 (input length, output length, proof length): the region a narrowing cast or a 16-bit counter would first get wrong. Used as
+/// fixed corpus cases by the checks whose generators otherwise stay below a few thousand elements.
+pub fn wide_cfgs() -> Vec<VdafCfg> {
+    let mk = |inst: Inst, n_agg: u8, xof: XofKind| VdafCfg { alg_id: inst.default_alg_id(), inst, xof, n_agg, n_proofs: 1 };
+    vec![
+        mk(Inst::Histogram { f: FieldKind::F128, len: 65_544, chunk: 256, mt: false }, 2, XofKind::Turbo),
+        mk(Inst::Histogram { f: FieldKind::F64, len: 65_537, chunk: 300, mt: false }, 3, XofKind::Turbo),
+        mk(Inst::SumVec { f: FieldKind::F128, max: U(1), len: 65_600, chunk: 256, mt: false }, 2, XofKind::Turbo),
+        mk(Inst::SumVec { f: FieldKind::F64, max: U(255), len: 8_200, chunk: 250, mt: false }, 2, XofKind::Hmac),
+        mk(Inst::Multihot { f: FieldKind::F64, len: 65_600, max_weight: 4_403, chunk: 260, mt: false }, 2, XofKind::Turbo),
+        mk(Inst::L1 { f: FieldKind::F128, max: U(255), len: 8_193, chunk: 257 }, 2, XofKind::Turbo),
+        // (more than 2^16 gadget calls is out of reach: the library's extend_values_to_power_of_2
+        // is quadratic in the number of calls, > 5 minutes per report at 66 000 calls)
+        mk(Inst::SumVec { f: FieldKind::F64, max: U(1), len: 4_200, chunk: 2, mt: false }, 2, XofKind::Turbo),
+    ]
+}
